@@ -13,6 +13,9 @@ use std::cell::RefCell;
 use std::collections::HashMap;
 use std::mem;
 use std::num::NonZeroUsize;
+#[cfg(cfr_verif)]
+use cfr_verif_seam::sync::Mutex;
+#[cfg(not(cfr_verif))]
 use std::sync::Mutex;
 
 /// A variant of the standard regret infoset that caches the last selected external sampled strat
